@@ -779,3 +779,251 @@ Proof.
 Qed.
 
 End SilentPolls.
+
+(* ------------------------------------------------------------------------------------------ *)
+(* 4. schedules, the ranking induction, the bound                                               *)
+
+Definition silent_in2 (x : Z * bool) : Z * phy_in := (fst x, mkPhyIn (snd x) []).
+
+Section Schedules.
+Variable A : Type.
+Variable ops : app_ops A.
+Variable P : Z.
+
+(* a poll schedule of a lone station on a silent bus: times increase with gaps of at most P, the receive
+   buffer is always empty, the PHY reports busy at most while the station itself still predicts the end
+   of its own transmission *)
+Fixpoint lone_ok (f : fdl) (apps : list A) (tprev : Z) (ins : list (Z * bool)) : Prop :=
+  match ins with
+  | [] => True
+  | (now, b) :: t =>
+      tprev < now <= tprev + P /\ time_ok now /\ (b = true -> predicted f now = true) /\
+      forall f' o apps' c, poll ops f now (mkPhyIn b []) apps = Ok (f', o, apps', c) -> lone_ok f' apps' now t
+  end.
+
+(* the station holds the token after some poll at or before time B - or the schedule ends too early *)
+Definition reached (B : Z) (steps : list step_rec) : Prop :=
+  Exists (fun s => have_token (f_state (s_f' s)) = true /\ s_now s <= B) steps \/
+  Forall (fun s => s_now s <= B - P) steps.
+
+Lemma reached_nil B : reached B []. Proof. right. constructor. Qed.
+
+Lemma reached_cons B B' s steps : B' <= B -> s_now s <= B - P -> reached B' steps -> reached B (s :: steps).
+Proof.
+  intros HB Hs [H|H].
+  - left. apply Exists_cons_tl. eapply Exists_impl; [|exact H]. cbn. intros x [H1 H2]. split; [exact H1|lia].
+  - right. constructor; [exact Hs|]. eapply Forall_impl; [|exact H]. cbn. intros x Hx. lia.
+Qed.
+
+Lemma reached_here B s steps : have_token (f_state (s_f' s)) = true -> s_now s <= B -> reached B (s :: steps).
+Proof. intros H1 H2. left. apply Exists_cons_hd. split; assumption. Qed.
+
+Hypothesis Happs : apps_total A ops.
+
+(* every schedule runs without panic from a state that satisfies Rep *)
+Lemma run_total : forall ins f apps tprev, Rep (length apps) f -> lone_ok f apps tprev ins ->
+  exists steps, run_polls ops f apps (map silent_in2 ins) = Ok steps.
+Proof.
+  induction ins as [|[t1 b] rest IH]; intros f apps tprev R Hl; [exists []; reflexivity|].
+  destruct Hl as (_ & Tn & _ & Hnext).
+  destruct (poll_rep_step A ops Happs f t1 (mkPhyIn b []) apps R Tn ltac:(constructor)) as (f' & o & apps' & c & E & R' & Hlen').
+  rewrite <- Hlen' in R'. destruct (IH f' apps' t1 R' (Hnext _ _ _ _ E)) as [steps Hs].
+  cbn [map silent_in2 run_polls fst snd]. rewrite E. cbn [bind]. rewrite Hs. cbn [bind]. eexists. reflexivity.
+Qed.
+
+Section Generic.
+Variable n : nat.
+Variable Inv : fdl -> Prop.
+Variable mu : fdl -> nat.
+Variables dmax TX : Z.
+Hypothesis Hd : 0 <= dmax.
+Hypothesis HT : 0 <= TX.
+Hypothesis HP : 0 <= P.
+
+Hypothesis step : forall f now b (apps : list A),
+  Inv f -> length apps = n -> time_ok now -> (b = true -> predicted f now = true) ->
+  exists f' o apps' c, poll ops f now (mkPhyIn b []) apps = Ok (f', o, apps', c) /\ length apps' = n /\ Rep n f' /\
+    ((now <= gv now (f_lba f) + dmax /\ Inv f' /\ mu f' = mu f /\ f_lba f' = Some (gv now (f_lba f)))
+     \/ have_token (f_state f') = true
+     \/ (Inv f' /\ (mu f' < mu f)%nat /\ exists l', f_lba f' = Some l' /\ l' <= Z.max (gv now (f_lba f)) (now + TX))).
+
+Definition gbound (f : fdl) (t1 : Z) : Z :=
+  Z.max t1 (gv t1 (f_lba f) + dmax + P) + Z.of_nat (mu f) * (TX + dmax + P).
+
+Theorem generic_recover : forall ins f apps tprev,
+  Inv f -> length apps = n -> lone_ok f apps tprev ins ->
+  exists steps, run_polls ops f apps (map silent_in2 ins) = Ok steps /\
+    match ins with [] => steps = [] | (t1, _) :: _ => reached (gbound f t1) steps end.
+Proof.
+  induction ins as [|[t1 b] rest IH]; intros f apps tprev Hinv Hlen Hl.
+  - exists []. split; reflexivity.
+  - destruct Hl as (_ & Tn & Hb & Hnext).
+    destruct (step f t1 b apps Hinv Hlen Tn Hb) as (f' & o & apps' & c & E & Hlen' & R' & Hcase).
+    specialize (Hnext _ _ _ _ E).
+    cbn [map silent_in2 run_polls fst snd]. rewrite E. cbn [bind].
+    set (D := TX + dmax + P). assert (HD : 0 <= D) by (unfold D; lia).
+    set (s := mkStep f t1 (mkPhyIn b []) f' o).
+    assert (Hgap : forall t2 b2 rest', rest = (t2, b2) :: rest' -> t2 <= t1 + P).
+    { intros t2 b2 rest' ->. destruct Hnext as (Hg & _). lia. }
+    destruct Hcase as [(Hw & Hinv' & Hmu & Hl')|[Hgoal|(Hinv' & Hmu & l' & Hl' & Hle)]].
+    + (* waiting *)
+      destruct (IH f' apps' t1 Hinv' Hlen' Hnext) as [steps [Hrun Hre]].
+      rewrite Hrun. cbn [bind]. eexists. split; [reflexivity|].
+      assert (Hs : s_now s <= gbound f t1 - P) by (unfold gbound; cbn [s s_now]; nia).
+      destruct rest as [|[t2 b2] rest'].
+      * subst steps. apply (reached_cons _ (gbound f t1)); [lia|exact Hs|apply reached_nil].
+      * apply (reached_cons _ (gbound f' t2)); [|exact Hs|exact Hre].
+        specialize (Hgap _ _ _ eq_refl). unfold gbound. rewrite Hl', Hmu. cbn [gv]. fold D. lia.
+    + (* the station holds the token *)
+      rewrite <- Hlen' in R'.
+      destruct (run_total rest f' apps' t1 R' Hnext) as [steps Hrun]. rewrite Hrun. cbn [bind].
+      eexists. split; [reflexivity|]. apply reached_here; [exact Hgoal|]. cbn [s s_now]. unfold gbound. fold D.
+      assert (0 <= Z.of_nat (mu f) * D) by (apply Z.mul_nonneg_nonneg; lia). unfold D in *. lia.
+    + (* progress *)
+      destruct (IH f' apps' t1 Hinv' Hlen' Hnext) as [steps [Hrun Hre]].
+      rewrite Hrun. cbn [bind]. eexists. split; [reflexivity|].
+      assert (Hm : Z.of_nat (mu f') * D <= Z.of_nat (mu f) * D - D) by nia.
+      assert (Hs : s_now s <= gbound f t1 - P) by (unfold gbound; fold D; cbn [s s_now]; unfold D in *; nia).
+      destruct rest as [|[t2 b2] rest'].
+      * subst steps. apply (reached_cons _ (gbound f t1)); [lia|exact Hs|apply reached_nil].
+      * apply (reached_cons _ (gbound f' t2)); [|exact Hs|exact Hre].
+        specialize (Hgap _ _ _ eq_refl). unfold gbound. rewrite Hl'. cbn [gv]. fold D. unfold D in *. lia.
+Qed.
+
+End Generic.
+
+(* ---- the two chains and every state ---- *)
+
+Definition is_idle_chain (s : state) : bool :=
+  match s with Offline | ListenToken _ _ | ActiveIdle _ _ _ => true | _ => false end.
+
+(* the bound: from the first poll time t1 and the last recorded bus activity L.
+   Idle chain (set online / listening / idle in the ring): the token-lost time-out of the own address plus one
+   poll period, plus at most two further steps (a pending status reply of 6 bytes).
+   Token chain (token-holding states, PassToken, CheckTokenPass): one slot time plus one poll period per
+   step, a token telegram per step; at most three steps (passes) per other station in the ring view, plus
+   at most five. *)
+Definition recover_bound (f : fdl) (t1 : Z) : Z :=
+  let p := f_p f in let L := gv t1 (f_lba f) in
+  if is_idle_chain (f_state f)
+  then Z.max t1 (L + token_lost_timeout p + P) + Z.of_nat (idle_rank (f_state f)) * (dur p 6 + token_lost_timeout p + P)
+  else Z.max t1 (L + slot_time p + P) + Z.of_nat (mu_B f) * (dur p 3 + slot_time p + P).
+
+Lemma dur_nonneg p k : 0 <= dur p k.
+Proof. unfold dur. apply C01Proofs.btt_nonneg. unfold bits_per_byte. lia. Qed.
+
+Theorem lost_token_recovers_alone : forall ins f apps tprev,
+  0 <= P -> Rep (length apps) f -> f_conn f = ConnOnline -> (f_lba f = None -> f_state f = Offline) ->
+  lone_ok f apps tprev ins ->
+  exists steps, run_polls ops f apps (map silent_in2 ins) = Ok steps /\
+    match ins with [] => steps = [] | (t1, _) :: _ => reached (recover_bound f t1) steps end.
+Proof.
+  intros ins f apps tprev HP R Hc Hl Hlone.
+  pose proof (bv_slot _ _ R) as Hslot.
+  pose proof (slot_le_timeout _ (rep_p _ _ R)) as Hst.
+  unfold recover_bound.
+  destruct (is_idle_chain (f_state f)) eqn:Ei.
+  - assert (Hinv : InvA (f_p f) (length apps) f).
+    { split; [exact R|]. split; [exact Hc|]. split; [exact Hl|]. split; [reflexivity|].
+      destruct (f_state f); try discriminate Ei; exact I. }
+    exact (generic_recover (length apps) (InvA (f_p f) (length apps)) mu_A (token_lost_timeout (f_p f)) (dur (f_p f) 6)
+             ltac:(lia) (dur_nonneg _ _) HP
+             (fun g now b apps0 => stepA A ops Happs (f_p f) (length apps) g now b apps0) ins f apps tprev Hinv eq_refl Hlone).
+  - assert (Hinv : InvB (f_p f) (length apps) f).
+    { split; [exact R|]. split; [exact Hc|].
+      split; [intros C; specialize (Hl C); rewrite Hl in Ei; discriminate Ei|]. split; [reflexivity|].
+      pose proof (rep_st _ _ R) as St.
+      destruct (f_state f); try discriminate Ei; try contradiction; unfold chainB; cbn; tauto. }
+    exact (generic_recover (length apps) (InvB (f_p f) (length apps)) mu_B (slot_time (f_p f)) (dur (f_p f) 3)
+             ltac:(lia) (dur_nonneg _ _) HP
+             (fun g now b apps0 => stepB A ops Happs (f_p f) (length apps) g now b apps0) ins f apps tprev Hinv eq_refl Hlone).
+Qed.
+
+(* a closed form above the bound: three steps per listed station plus five, each step at most the station's
+   token-lost time-out plus a 6-byte telegram plus a poll period *)
+Lemma mu_B_le f : (mu_B f <= 3 * others (f_ring f) (ts f) + 5)%nat.
+Proof. unfold mu_B. destruct (f_state f); lia. Qed.
+
+Lemma recover_bound_le f t1 n : 0 <= P -> Rep n f ->
+  recover_bound f t1 <=
+  Z.max t1 (gv t1 (f_lba f) + token_lost_timeout (f_p f) + P) +
+  (3 * Z.of_nat (others (f_ring f) (ts f)) + 5) * (dur (f_p f) 6 + token_lost_timeout (f_p f) + P).
+Proof.
+  intros HP R. pose proof (bv_slot _ _ R) as Hslot. pose proof (slot_le_timeout _ (rep_p _ _ R)) as Hst.
+  pose proof (dur_nonneg (f_p f) 3) as H3.
+  assert (H36 : dur (f_p f) 3 <= dur (f_p f) 6) by (unfold dur; apply C01Proofs.btt_mono; unfold bits_per_byte; lia).
+  unfold recover_bound. set (m := Z.of_nat (others (f_ring f) (ts f))). assert (0 <= m) by (unfold m; lia).
+  destruct (is_idle_chain (f_state f)).
+  - assert (Hr : (idle_rank (f_state f) <= 2)%nat) by (destruct (f_state f) as [ | |[x|] y|[x|] y z| | | | | | ]; cbn; lia).
+    nia.
+  - pose proof (mu_B_le f) as Hm. fold m in Hm.
+    assert (Hm' : Z.of_nat (mu_B f) <= 3 * m + 5) by (unfold m; lia).
+    nia.
+Qed.
+
+
+Lemma run_polls_now : forall (ins : list (Z * phy_in)) f apps steps,
+  run_polls ops f apps ins = Ok steps -> map s_now steps = map fst ins.
+Proof.
+  induction ins as [|[t pin] rest IH]; intros f apps steps H; cbn [run_polls] in H.
+  - injection H as <-. reflexivity.
+  - destruct (poll ops f t pin apps) as [[[[f' o] apps'] c]| |]; cbn [bind] in H; try discriminate H.
+    destruct (run_polls ops f' apps' rest) as [l| |] eqn:Er; cbn [bind] in H; try discriminate H.
+    injection H as <-. cbn [map s_now fst]. rewrite (IH _ _ _ Er). reflexivity.
+Qed.
+
+(* if the schedule goes on long enough - it has a poll later than the bound minus one period - the station
+   holds the token after a poll at or before the bound *)
+Corollary lost_token_recovers_alone_by : forall ins f apps tprev t1 b rest t,
+  0 <= P -> Rep (length apps) f -> f_conn f = ConnOnline -> (f_lba f = None -> f_state f = Offline) ->
+  ins = (t1, b) :: rest -> lone_ok f apps tprev ins ->
+  In t (map fst ins) -> recover_bound f t1 - P < t ->
+  exists steps, run_polls ops f apps (map silent_in2 ins) = Ok steps /\
+    Exists (fun s => have_token (f_state (s_f' s)) = true /\ s_now s <= recover_bound f t1) steps.
+Proof.
+  intros ins f apps tprev t1 b rest t HP R Hc Hl -> Hlone Hin Hlate.
+  destruct (lost_token_recovers_alone _ f apps tprev HP R Hc Hl Hlone) as [steps [Hrun Hre]].
+  exists steps. split; [exact Hrun|]. destruct Hre as [H|H]; [exact H|exfalso].
+  apply run_polls_now in Hrun. rewrite map_map in Hrun.
+  assert (Hin' : In t (map s_now steps)) by (rewrite Hrun; exact Hin).
+  apply in_map_iff in Hin'. destruct Hin' as [s [Hs Hsin]]. rewrite Forall_forall in H. specialize (H s Hsin). lia.
+Qed.
+
+End Schedules.
+
+(* ------------------------------------------------------------------------------------------ *)
+(* non-vacuity: a freshly created station with the default parameters (address 1, 19200 baud), set
+   online and polled every 50 ms on a silent bus holds the token after one of the polls up to 291.872 ms *)
+
+Definition ex_sched : list (Z * bool) :=
+  [(10000, false); (60000, false); (110000, false); (160000, false); (210000, false); (260000, false)].
+
+Lemma default_params_valid : builder_valid default_params.
+Proof. unfold builder_valid, default_params. vm_compute. repeat split; discriminate. Qed.
+
+Lemma ex_recover_fresh f0 f : fdl_new default_params = Ok f0 -> set_online f0 = Ok f ->
+  exists steps, run_polls unit_app_ops f [tt] (map silent_in2 ex_sched) = Ok steps /\
+    Exists (fun s => have_token (f_state (s_f' s)) = true /\ s_now s <= 291872) steps.
+Proof.
+  intros E0 E1.
+  destruct (fdl_new_rep 1 default_params default_params_valid) as [g0 (Eg & R0 & Hc0 & Hs0 & Hp0)].
+  rewrite E0 in Eg. injection Eg as <-.
+  destruct (fdl_new_fields _ _ E0) as (_ & _ & Hl0 & _).
+  unfold set_online, set_state in E1. injection E1 as <-.
+  assert (R : Rep (length [tt]) (set_conn f0 ConnOnline)).
+  { destruct (Rep_set_online 1 f0 R0) as [f1 [E R1]]. unfold set_online, set_state in E. injection E as <-. exact R1. }
+  assert (Hb : recover_bound 50000 (set_conn f0 ConnOnline) 10000 = 291872).
+  { unfold recover_bound. cbn [set_conn f_state f_p f_lba]. rewrite Hs0, Hp0, Hl0. vm_compute. reflexivity. }
+  destruct (lost_token_recovers_alone_by unit unit_app_ops 50000 unit_apps_total ex_sched (set_conn f0 ConnOnline) [tt] 0
+              10000 false (tl ex_sched) 260000 ltac:(lia) R eq_refl ltac:(intros _; exact Hs0) eq_refl) as [steps [Hrun Hex]].
+  - unfold ex_sched. cbn [lone_ok]. unfold time_ok.
+    repeat (split; [lia|]); repeat (split; [intros C; discriminate C|]); intros; 
+    repeat (split; [lia|]); repeat (split; [intros C; discriminate C|]); intros;
+    repeat (split; [lia|]); repeat (split; [intros C; discriminate C|]); intros;
+    repeat (split; [lia|]); repeat (split; [intros C; discriminate C|]); intros;
+    repeat (split; [lia|]); repeat (split; [intros C; discriminate C|]); intros;
+    repeat (split; [lia|]); repeat (split; [intros C; discriminate C|]); intros; exact I.
+  - cbn. tauto.
+  - rewrite Hb. lia.
+  - exists steps. split; [exact Hrun|]. rewrite Hb in Hex. exact Hex.
+Qed.
